@@ -214,7 +214,15 @@ func (c *channel) Close(err error) {
 		// wait async send finished.
 		if nil != c.writeQueue {
 			var maxWaitNum int
-			for (c.untilWrite || maxWaitNum < 10) && atomic.LoadInt32(&c.running) != idle {
+			// wait until the queue is drained AND the sender has released (the
+			// queue is read first: empty queue, then idle flag, means every
+			// packet accepted before has been written and flushed)
+			for (c.untilWrite || maxWaitNum < 10) && (len(c.writeQueue) > 0 || atomic.LoadInt32(&c.running) != idle) {
+				// the sender released while packets were still queued: send them from here
+				if atomic.CompareAndSwapInt32(&c.running, idle, running) {
+					c.writeOnce()
+					continue
+				}
 				maxWaitNum++
 				time.Sleep(time.Millisecond * 100)
 			}
